@@ -132,6 +132,29 @@ def prove_queue_messages(src_root, ex: Explorer):
         ctx.prove('C14.queue_messages.tracked', c.attrs['_queued_messages'] == tasks and all(len(tk.callbacks) == 1 for tk in tasks))
     ex.run(path, 'queue_messages')
 
+    def own_list(ctx: Ctx):
+        """the list of pending send tasks belongs to ONE connection: disconnect() of a connection cancels what that list holds, so a list
+        shared between connections (a mutable class-level default) lets the close of any connection cancel the forwards queued for every
+        child.  Two connections built by the real constructors: every mutable container they start with is their own."""
+        it = mk(src_root, ctx)
+        kind = ['PeerConnection', 'ServerConnection'][ctx.choose(2, 'class')]
+        net = Stub('network')
+        a = it.call(cls(it, CONN, kind), ['1.2.3.4', 5, net], {})
+        b = it.call(cls(it, CONN, kind), ['1.2.3.5', 6, net], {})
+        shared = []
+        for o in (a, b):
+            for nm in ('_queued_messages',):
+                if nm not in o.attrs:
+                    v = it.getattr(o, nm)           # class-level default
+                    shared.append((nm, 'class attribute'))
+        for nm, v in a.attrs.items():
+            if isinstance(v, (list, dict, set)) and b.attrs.get(nm) is v:
+                shared.append((nm, 'same object in two connections'))
+        qa = a.attrs.get('_queued_messages')
+        ctx.prove(f'C14.queue_messages.own-list[{kind}]', not shared and isinstance(qa, list) and qa == [],
+                  f'two {kind} objects share mutable state: {shared}')
+    ex.run(own_list, 'queue_messages-own-list')
+
 
 # ---------------------------------------------------------------------------
 # answering (SearchManager)
@@ -180,6 +203,10 @@ def mk_search_manager(it, ctx, *, session=True):
     sess = Stub('session', user=Stub('user', name=me)) if session else None
     mgr = new(it, SM, 'SearchManager', _settings=settings, _event_bus=bus, _shares_manager=shares, _network=net, _session=sess,
               _upload_info_provider=upi, excluded_search_phrases=['x'], received_searches=[], _search_reply_tasks=[])
+    # our own pending searches: an ARBITRARY set of tickets (tickets are drawn per client, a foreign request may carry any of them) - whether
+    # a foreign request is answered must not depend on it
+    from pyvc.symcoll import SymSet as _SymSet
+    mgr.attrs['requests'] = _SymSet.fresh(ctx, 'own_pending_tickets', z3.IntSort())
     it.natives['aioslsk.utils.task_counter'] = Native('task_counter', lambda it2, a, k: 1)
     return dict(mgr=mgr, me=me, emitted=emitted, blocked=blocked, block_calls=block_calls, visible=visible, locked=locked,
                 nv=nv, nl=nl, queries=queries, net=net)
